@@ -1009,8 +1009,10 @@ func (m *Manager) PoolTransaction(id types.TransactionID) (types.Transaction, bo
 	m.mu.Lock()
 	defer m.mu.Unlock()
 	m.revalidatePool()
+	// NOTE: indices is shared between v1 and v2 transactions, so the position
+	// is only meaningful if the v1 transaction at that position has this ID
 	i, ok := m.txpool.indices[id]
-	if !ok {
+	if !ok || i >= len(m.txpool.txns) || m.txpool.txns[i].ID() != id {
 		return types.Transaction{}, false
 	}
 	return m.txpool.txns[i], ok
@@ -1031,8 +1033,10 @@ func (m *Manager) V2PoolTransaction(id types.TransactionID) (types.V2Transaction
 	m.mu.Lock()
 	defer m.mu.Unlock()
 	m.revalidatePool()
+	// NOTE: indices is shared between v1 and v2 transactions, so the position
+	// is only meaningful if the v2 transaction at that position has this ID
 	i, ok := m.txpool.indices[id]
-	if !ok {
+	if !ok || i >= len(m.txpool.v2txns) || m.txpool.v2txns[i].ID() != id {
 		return types.V2Transaction{}, false
 	}
 	return m.txpool.v2txns[i].DeepCopy(), ok
